@@ -17,6 +17,6 @@ cp /tmp/$id.patch /verif/seeded/$id/patch.diff
 cp $d/demo_$p.py /verif/seeded/$id/
 git -C /repo apply --check /verif/seeded/$id/patch.diff || { echo "patch does not apply to /repo"; exit 1; }
 git -C /repo apply /verif/seeded/$id/patch.diff
-(cd /verif && ./check $p 2>&1 | tail -4) | tee /tmp/$id.check.log
+(cd /verif && VERIF_SCRATCH_EVIDENCE=1 ./check $p 2>&1 | tail -4) | tee /tmp/$id.check.log
 git -C /repo checkout -- .
 git -C /repo status --short
